@@ -1,4 +1,5 @@
 import CalVerif.Model.XlsxCells
+import CalVerif.Model.Range
 /-! Model of `XlsxCellReader::next_formula` and `Xlsx::worksheet_formula` (`/repo/src/xlsx/cells_reader.rs`,
     `/repo/src/xlsx/mod.rs`) over the XML event list of a worksheet part (C14, stored-text formulas).
 
@@ -125,6 +126,14 @@ def readFormulas (evs : List Ev) : Res (List (Nat × Nat × Bytes)) :=
 def formulaCells (evs : List Ev) : Res (List (Nat × Nat × Bytes)) :=
   match readFormulas evs with
   | .ok cells => .ok (cells.filter fun c => c.2.2 ≠ [])
+  | .err e => .err e
+  | .panic s => .panic s
+  | .outOfFuel => .outOfFuel
+
+/-- `Xlsx::worksheet_formula`: `Range::from_sparse` of the cells with a non-empty text (default cell `""`) -/
+def worksheetFormula (evs : List Ev) : Res (Range.Rng Bytes) :=
+  match formulaCells evs with
+  | .ok cells => Range.fromSparse cells
   | .err e => .err e
   | .panic s => .panic s
   | .outOfFuel => .outOfFuel
